@@ -19,6 +19,10 @@ class Result:
         self.tables = {}
         self.assumptions = []
         self.trusted = []
+        self.undecided_ = []   # (rule, message): a rule that could not decide; fatal only when nothing else reports a violation
+
+    def undecided(self, rule, msg):
+        self.undecided_.append((rule, msg))
 
     def floor(self, rule, n):
         self.floors[rule] = max(n, self.floors.get(rule, 0))
@@ -62,6 +66,12 @@ def finish(res, t0, explanation, design_ref, complete_clauses=()):
         # a floor guards *passes* against vacuity; a reported violation stands on its own
         raise BrokenAnalysis("; ".join(short))
     res.notes += short
+    if res.undecided_ and not res.viol:
+        # some rule could not decide and no other rule reports anything: the check as a whole has no verdict
+        raise BrokenAnalysis("; ".join("%s: %s" % u for u in res.undecided_[:3]))
+    for rule_, msg_ in res.undecided_:
+        print("UNDECIDED rule %s: %s" % (rule_, msg_[:300]))
+        res.notes.append("undecided %s: %s" % (rule_, msg_))
     known = [k for k in load_known() if k.get("property") == prop]
     real = []
     printed = set()
